@@ -171,6 +171,20 @@ def run_part(prop, seed, budget):
                 _fail(failures, "named-specialisation", "named-type-not-extracted-under-its-name", spelled=spelled, got=r)
             r2 = _out(lambda: definitions_schema(deserialization=[tp], all_refs=True))
             if r2[0] != "ok" or list(r2[1]) != [f"IntsBox{i}"]: _fail(failures, "named-specialisation", "definitions_schema-differs-from-the-inline-defs", spelled=spelled, got=r2)
+        # a named type under a mapping-typed aggregate field is referenced like anywhere else; a class recursive through such a field terminates
+        asrc = ["from dataclasses import dataclass, field", "from typing import *", "from apischema.metadata import properties", "",
+                "@dataclass", f"class RecP{i}:", f"    children: Dict[str, 'RecP{i}'] = field(default_factory=dict, metadata=properties)", "",
+                "@dataclass", f"class NamedV{i}:", "    x: int = 0", "", "@dataclass", f"class HoldV{i}:", f"    b: NamedV{i}",
+                f"    extra: Dict[str, NamedV{i}] = field(default_factory=dict, metadata=properties)", ""]
+        ag = vars(build_module(asrc, f"corners7agg_{seed}"))
+        for fn_ in (deserialization_schema, serialization_schema):
+            n += 2; distinct.add(case_hash("c7-aggref", fn_.__name__)); hist["named-types-under-aggregate-mappings"] += 2
+            r = _out(lambda: fn_(ag[f"RecP{i}"]))
+            if r[0] != "ok" or r[1].get("$defs", {}).get(f"RecP{i}", {}).get("additionalProperties") != {"$ref": f"#/$defs/RecP{i}"}:
+                _fail(failures, "aggregate-mapping-values", "crash:" + r[1].split(":")[0] if r[0] == "crash" else "recursive-aggregate-not-expressed-through-a-reference", which=fn_.__name__, got=r)
+            r = _out(lambda: fn_(ag[f"HoldV{i}"]))
+            if r[0] != "ok" or r[1].get("additionalProperties") != {"$ref": f"#/$defs/NamedV{i}"} or list(r[1].get("$defs", {})) != [f"NamedV{i}"]:
+                _fail(failures, "aggregate-mapping-values", "extracted-type-inlined-under-an-aggregate-field", which=fn_.__name__, got=r)
         # dependentRequired lists are sets: valid against the meta-schema whatever the overlap of the declared groups
         import jsonschema
         for cname in (f"Contact{i}", f"Pay{i}", f"PayEU{i}"):
